@@ -74,7 +74,11 @@ type Ctx struct {
 
 	start    time.Time
 	deadline time.Time
-	mu       sync.Mutex
+	// memory guard (see TimeUp); TimeUp is called from the search loop of one goroutine, or from several: the two
+	// fields are only a cache, a race on them costs one more sample
+	memChecked atomic.Int64 // unix nanoseconds of the last sample
+	memTight   atomic.Bool
+	mu         sync.Mutex
 	counters map[string]*atomic.Int64
 	sets     map[string]*hashSet
 	res      shardResult
@@ -231,7 +235,33 @@ func (c *Ctx) Require(cond bool, format string, a ...any) {
 }
 
 // TimeUp reports whether the tier's internal deadline has passed.
-func (c *Ctx) TimeUp() bool { return time.Now().After(c.deadline) }
+//
+// It also reports true once the process holds more heap than the memory guard allows (default 3 GiB per shard,
+// VERIF_MEM_LIMIT_MB): the machine has no memory limit and 16 shards share it, so a search that outgrows the guard is
+// stopped the way the deadline stops it (the caller reports NotExhaustive) instead of being killed by the kernel.
+func (c *Ctx) TimeUp() bool {
+	now := time.Now()
+	if now.After(c.deadline) {
+		return true
+	}
+	if c.memTight.Load() {
+		return true
+	}
+	if last := c.memChecked.Load(); now.UnixNano()-last > int64(2*time.Second) && c.memChecked.CompareAndSwap(last, now.UnixNano()) {
+		var ms runtime.MemStats
+		runtime.ReadMemStats(&ms)
+		limit := uint64(3 << 30)
+		if v, err := strconv.Atoi(os.Getenv("VERIF_MEM_LIMIT_MB")); err == nil && v > 0 {
+			limit = uint64(v) << 20
+		}
+		if ms.HeapAlloc > limit {
+			c.memTight.Store(true)
+			c.Note("memory guard: shard %d holds %d MiB of heap (limit %d MiB); exploration stopped as at the deadline", c.Shard, ms.HeapAlloc>>20, limit>>20)
+			return true
+		}
+	}
+	return false
+}
 
 func (c *Ctx) Elapsed() time.Duration { return time.Since(c.start) }
 
@@ -793,6 +823,17 @@ type exchangeFile struct {
 // (Key, Data), identical in every shard. stop is true if any shard asked to stop (deadline). ok is false when another
 // shard died (the caller should return; the parent reports the failure).
 func (c *Ctx) Exchange(tag string, items []Item, wantStop bool) (all []Item, stop bool, ok bool) {
+	return c.exchange(tag, items, wantStop, false)
+}
+
+// ExchangeOwned is Exchange for searches in which a shard only ever looks at the Data of the keys it Owns: the Data of
+// every other item is dropped while the files are read (every shard still learns every Key), which keeps the memory
+// of a level with millions of states in bounds.
+func (c *Ctx) ExchangeOwned(tag string, items []Item, wantStop bool) (all []Item, stop bool, ok bool) {
+	return c.exchange(tag, items, wantStop, true)
+}
+
+func (c *Ctx) exchange(tag string, items []Item, wantStop bool, ownedOnly bool) (all []Item, stop bool, ok bool) {
 	if c.NShards <= 1 || c.Shared == "" {
 		sort.Slice(items, func(i, j int) bool {
 			if items[i].Key != items[j].Key {
@@ -840,7 +881,15 @@ func (c *Ctx) Exchange(tag string, items []Item, wantStop bool) (all []Item, sto
 			return nil, true, false
 		}
 		stop = stop || ef.Stop
+		if ownedOnly {
+			for k := range ef.Items {
+				if !c.Owns(ef.Items[k].Key) {
+					ef.Items[k].Data = nil
+				}
+			}
+		}
 		all = append(all, ef.Items...)
+		fb = nil
 	}
 	sort.Slice(all, func(i, j int) bool {
 		if all[i].Key != all[j].Key {
